@@ -42,7 +42,12 @@ def gen_array(kind, k):
         return np.array([0.5 * k + 0.25, -0.75 * k + 1.0, 0.3 * k - 2.0,
                          0.1 * k + 0.1, -0.2 * k + 0.3, 0.05 * k - 0.4])
     if kind == 'q':
-        return elem_value('UnitQuaternion', 3 * k + 1)
+        # rotation angles over more than a full turn, so that scalar parts of both signs and
+        # pairs with a negative inner product occur
+        a = [0.3, 2.5, -2.5, 3.9, 5.5, -1.0, 6.0, 0.02][k % 8]
+        ax = [np.array([0.0, 0.0, 1.0]), np.array([1.0, 2.0, 3.0]) / math.sqrt(14.0)][(k // 8) % 2]
+        q = np.array([math.cos(a / 2), *(math.sin(a / 2) * ax)])
+        return q / math.sqrt(float(q @ q))
     if kind == 'R2':
         return _rot2(0.37 * k + 0.11)
     if kind == 'T2':
@@ -86,7 +91,7 @@ def gen_array(kind, k):
         return m
     if kind == 'qN':        # N x 4 array of unit quaternions
         n = 1 + (k % 3)
-        return np.array([elem_value('UnitQuaternion', 5 * k + i) for i in range(n)])
+        return np.array([gen_array('q', k + 3 * i) for i in range(n)])
     if kind == 'tN':        # N x 3 array of translations
         n = 1 + (k % 3)
         return np.array([gen_array('v3', k + i) for i in range(n)])
